@@ -81,6 +81,8 @@ def r_cmd(c):
         return "su %s" % r_dl(c[1])
     if k == "st":
         return "st"
+    if k == "rc":
+        return "rc %d %d %d %d %d" % (c[1], c[2], c[3], c[4], c[5])
     return " ".join([k] + [str(x) for x in c[1:]])
 
 
